@@ -858,3 +858,8 @@ Section Network.
           n_loopacc := n_loopacc n; n_connect := n_connect n; n_skipacc := n_skipacc n;
           n_optimizer := fst st; n_objective := n_objective n |}.
 End Network.
+
+Arguments FDense {N} outputs a bias dropout.
+Arguments FConv {N} filters a kernel stride padding dilation dropout.
+Arguments FDeconv {N} filters a kernel stride padding dropout.
+Arguments FMaxpool {N} kernel stride.
